@@ -125,10 +125,14 @@ Theorem C12_tables_agree :
   (forallb limit_tpl_ok x_limit_tpl = true /\ forallb offset_tpl_ok x_offset_tpl = true)
   /\ forallb grid_row_ok x_grid = true /\ forallb effect_row_ok x_effects = true
   /\ forallb position_row_ok x_position = true /\ forallb limit_by_row_ok x_limit_by = true
-  /\ forallb top_row_ok x_top = true.
+  /\ forallb top_row_ok x_top = true
+  (* other builder calls keep the slots (the model's COther); operands' own pagination does not reach the set operation's tail *)
+  /\ forallb (fun r : cls * kind * string * bool => snd r) x_keep = true
+  /\ forallb setop_operand_row_ok x_setop_operands = true.
 Proof.
   pose proof templates_agree as (a & _ & b & _).
-  repeat split; auto; first [apply grid_agrees | apply effects_agree | apply positions_agree | apply limit_by_agrees | apply top_agrees].
+  repeat split; auto; first [apply grid_agrees | apply effects_agree | apply positions_agree | apply limit_by_agrees
+                            | apply top_agrees | apply other_calls_keep | apply setop_operands_agree].
 Qed.
 Print Assumptions C12_tables_agree.
 
@@ -146,7 +150,7 @@ Proof. vm_compute. repeat split. Qed.
 Print Assumptions C12_example_window.
 
 Example C12_example_calls :
-  let cs := [CLimit (Some 3%Z); COffset (Some 9%Z); CLimit (Some 4%Z); CSlice (Some 2%Z) (Some 6%Z); COffset (Some 38%Z)] in
+  let cs := [CLimit (Some 3%Z); COffset (Some 9%Z); COther; CLimit (Some 4%Z); CSlice (Some 2%Z) (Some 6%Z); COffset (Some 38%Z); COther] in
   forallb (supported CSQLLite KSelect) cs = true
   /\ page_of CSQLLite KSelect cs = Ok (pg (Some 6%Z) (Some 38%Z))
   /\ last_hit w_lim cs = Some (Some 6%Z) /\ last_hit w_off cs = Some (Some 38%Z)
